@@ -41,6 +41,7 @@ def run(chk, repo: Repo):
     _r2(chk, repo)
     _r3(chk, repo)
     _r4(chk, repo)
+    _r4_one_partition(chk, repo)
     _r5(chk, repo)
     _r6(chk, repo)
     chk.rule("C13-R7", "a geometry whose par2fun post-processes the wrapped geometry's function values (user map) reports the shape of ITS OWN function "
@@ -339,6 +340,27 @@ def _r3(chk, repo):
     ok = f"return {xa}.reshape(self.fun_shape+(-1,)).squeeze()" in views(repo, c2, p2f) and f"return {xb}.reshape((self.par_dim,-1)).squeeze()" in views(repo, c2, f2p)
     chk.add("C13-R3", f"{c2.qual}/reshape-pair", ok, site(repo, p2f), "both directions: default order, trailing -1 axis, squeeze",
             "Continuous2D par2fun/fun2par no longer use the same (default) order and batch convention", p2f)
+
+
+def _r4_one_partition(chk, repo):
+    """StepExpansion: par2fun and fun2par are mutually inverse only if they use the SAME assignment of grid nodes to steps.  The partition is computed once
+    (constructor) and stored; both maps index with that stored attribute.  A map that recomputes the partition by another formula agrees in exact
+    arithmetic and differs by rounding whenever a node lies on a step boundary."""
+    se = repo.cls(f"{GEO}:StepExpansion")
+
+    def index_attrs(fn):
+        out = set()
+        for n in ast.walk(fn):
+            if isinstance(n, ast.Subscript):
+                for x in ast.walk(n.slice):
+                    if isinstance(x, ast.Attribute) and path_of(x.value) == "self":
+                        out.add(x.attr)
+        return out
+    init_w = {path_of(t)[5:] for n in ast.walk(se.methods["__init__"]) if isinstance(n, ast.Assign) for t in n.targets if (path_of(t) or "").startswith("self.")}
+    a_, b_ = index_attrs(se.methods["par2fun"]) & init_w, index_attrs(se.methods["fun2par"]) & init_w
+    chk.add("C13-R4", f"{se.qual}/one-partition", bool(a_) and a_ == b_, site(repo, se.methods["par2fun"]), "par2fun and fun2par index with the same stored partition",
+            f"par2fun indexes with the stored attributes {sorted(a_)}, fun2par with {sorted(b_)}: the two maps no longer share one node-to-step partition, so "
+            f"fun2par(par2fun(p)) != p for grids with a node on a step boundary", se.methods["par2fun"])
 
 
 def _r4(chk, repo):
